@@ -133,7 +133,18 @@ enum Scn {
 
 /// Resume protocol of the consumer (as documented in the chronobox module and used by
 /// the timestamps binary): buf = remainder ++ piece; parse; remainder = rest.
+/// The byte slice handed to the parser starts `off` bytes into a fresh allocation: its address
+/// is congruent to `off` modulo the allocator's alignment (16). A parser may not care.
+fn placed(bytes: &[u8], off: usize) -> Vec<u8> {
+    let mut v = Vec::with_capacity(bytes.len() + off);
+    v.resize(off, 0xEE);
+    v.extend_from_slice(bytes);
+    v
+}
+
 fn piecewise(stream: &[u8], cuts: &[usize], stats: &mut Stats) -> Result<(Vec<RefEntry>, Vec<u8>, bool), String> {
+    // (where the consumer's buffer sits in memory: decided by the stream and its cuts)
+    let off = (stream.len() / 4 + cuts.len() + cuts.first().copied().unwrap_or(0)) % 4;
     let mut entries = Vec::new();
     let mut remainder: Vec<u8> = Vec::new();
     let mut prev = 0usize;
@@ -145,7 +156,8 @@ fn piecewise(stream: &[u8], cuts: &[usize], stats: &mut Stats) -> Result<(Vec<Re
         let mut buf = std::mem::take(&mut remainder);
         buf.extend_from_slice(&stream[prev..c]);
         prev = c;
-        let mut slice: &[u8] = &buf[..];
+        let holder = placed(&buf, off);
+        let mut slice: &[u8] = &holder[off..];
         stats.executions += 1;
         let got = catch(|| {
             let e = chronobox_fifo(&mut slice);
@@ -334,7 +346,24 @@ impl Check for C07Check {
         // The parser runs on a thread with the stack an ordinary caller has (2 MiB is std's default
         // for spawned threads; the worker's own stack is 512 MiB and would hide recursion whose
         // depth the sender controls). A stack overflow aborts the process: reported as no-abort.
-        simcore::driver::run_on_stack(2 << 20, "C07", || run_on_caller_stack(scenario, stats))
+        {
+            let env_mode = {
+                // environment seam: in half of the scenarios variables that the real environment does
+                // not define are nevertheless present when code asks for them (see senv.rs)
+                let mut h = simcore::H64::new();
+                h.str(&scenario.to_string());
+                let v = h.finish();
+                if v & 1 == 0 { Some(v) } else { None }
+            };
+            simcore::driver::run_on_stack(2 << 20, "C07", || {
+                crate::senv::set_env_schedule(env_mode);
+                let out = run_on_caller_stack(scenario, stats);
+                if crate::senv::set_env_schedule(None) > 0 {
+                    stats.probe("code_under_test_asked_for_an_undefined_environment_variable");
+                }
+                out
+            })
+        }
     }
 
     fn shrink(&self, scenario: &Value) -> Vec<Value> {
@@ -697,6 +726,36 @@ fn run_on_caller_stack(scenario: &Value, stats: &mut Stats) -> Outcome {
                         ),
                         narrowed: Some(mk_scn(Cuts::Explicit(vec![vec![]]))),
                     });
+                }
+                // the same bytes at the three other placements of the buffer in memory (address modulo 4):
+                // entries and consumption must not depend on where the slice starts
+                if stream.len() <= 1 << 20 {
+                    for off in 1..4usize {
+                        let holder = placed(&stream, off);
+                        let mut slice: &[u8] = &holder[off..];
+                        stats.executions += 1;
+                        match catch(|| {
+                            let e = chronobox_fifo(&mut slice);
+                            (e.iter().map(view).collect::<Vec<_>>(), slice.len())
+                        }) {
+                            Err(p) => {
+                                viol.push(Violation { invariant: "C07.no-panic".into(), signature: format!("panic:{}:misaligned", panic_site(&p)), detail: p, narrowed: Some(mk_scn(Cuts::Explicit(vec![vec![]]))) });
+                                break;
+                            }
+                            Ok((e, rest)) => {
+                                if e != re || stream.len() - rest != rc {
+                                    viol.push(Violation {
+                                        invariant: "C07.I1-differs-from-reference".into(),
+                                        signature: format!("whole:{sig_kind}:buffer-address-mod-4"),
+                                        detail: format!("the slice starting at an address congruent to {off} modulo 4 parses to {} entries / {} bytes consumed, reference {} entries / {} bytes", e.len(), stream.len() - rest, re.len(), rc),
+                                        narrowed: Some(mk_scn(Cuts::Explicit(vec![vec![]]))),
+                                    });
+                                    break;
+                                }
+                            }
+                        }
+                    }
+                    stats.probe("whole_stream_parsed_at_all_four_buffer_placements");
                 }
                 if stream.len() > 65536 {
                     stats.probe("stream_longer_than_64KiB");
